@@ -9,6 +9,7 @@
 //        and prints the bytes and the primitive-transfer trace for the model side.
 #include <algorithm>
 #include <cstring>
+#include <fstream>
 #include <functional>
 #include <set>
 #include <sstream>
@@ -292,6 +293,93 @@ std::string do_blk(const Case& c) {
 	return os.str();
 }
 
+// reput type=T ver=.. bytes=<hex>: read the bytes with this build and write them again
+std::string do_reput(const Case& c) {
+	auto fac = NiFactoryRegister::Get().GetFactoryByName(c.get("type"));
+	if (!fac)
+		return "NOFACTORY";
+	NiHeader hdr;
+	hdr.SetVersion(parse_ver(c.get("ver")));
+	std::string hexs = c.get("bytes"), bytes;
+	for (size_t i = 0; i + 1 < hexs.size(); i += 2)
+		bytes.push_back(static_cast<char>(std::stoi(hexs.substr(i, 2), nullptr, 16)));
+	std::istringstream bin(bytes);
+	NiIStream bstream(&bin, &hdr);
+	auto obj = fac->Create();
+	g_generate = false;
+	g_trace.clear();
+	obj->Get(bstream);
+	std::vector<long> rtrace = g_trace;
+	bool consumed = bytes.empty() || (!bin.fail() && static_cast<size_t>(bin.tellg()) == bytes.size());
+	PutResult p = put_block(obj.get(), hdr);
+	std::ostringstream os;
+	os << "consumed=" << consumed << " same=" << (p.bytes == bytes) << " rtrace=" << str_trace(rtrace) << " out=" << hex(p.bytes);
+	return os.str();
+}
+
+uint64_t fnv1a(const std::string& s) {
+	uint64_t h = 1469598103934665603ULL;
+	for (unsigned char c : s) {
+		h ^= c;
+		h *= 1099511628211ULL;
+	}
+	return h;
+}
+
+// resave name=<sample> opts=raw|default [rounds=N] [dump=1]: load a sample file and save it N times
+// from the loaded object, then reload the last output and save again (fixed point test)
+std::string do_resave(const Case& c) {
+	const char* sdir = std::getenv("VERIF_SAMPLES");
+	std::string path = std::string(sdir ? sdir : "/repo/tests/input") + "/" + c.get("name");
+	std::ifstream f(path, std::ios::binary);
+	if (!f)
+		return "NOFILE";
+	NifFile nif;
+	int lrc = nif.Load(f);
+	std::ostringstream os;
+	os << "load=" << lrc;
+	if (lrc != 0)
+		return os.str();
+	NifSaveOptions so;
+	if (c.get("opts") == "raw") {
+		so.optimize = false;
+		so.sortBlocks = false;
+	}
+	long rounds = c.get("rounds").empty() ? 1 : c.geti("rounds");
+	std::string last;
+	for (long r = 0; r < rounds; ++r) {
+		std::stringstream ss;
+		int src = nif.Save(ss, so);
+		last = ss.str();
+		os << " save" << r << "=" << src << ":" << last.size() << ":" << std::hex << fnv1a(last) << std::dec;
+	}
+	// reload what was written and save it again
+	{
+		std::stringstream in(last);
+		NifFile re;
+		int rrc = re.Load(in);
+		os << " reload=" << rrc;
+		if (rrc == 0) {
+			std::stringstream ss;
+			int src = re.Save(ss, so);
+			std::string again = ss.str();
+			os << " resave=" << src << ":" << again.size() << ":" << std::hex << fnv1a(again) << std::dec
+			   << " fixed=" << (again == last);
+			// second round for the default options (converges within two rounds)
+			std::stringstream in2(again);
+			NifFile re2;
+			if (re2.Load(in2) == 0) {
+				std::stringstream ss2;
+				re2.Save(ss2, so);
+				os << " fixed2=" << (ss2.str() == again);
+			}
+		}
+	}
+	if (c.geti("dump") == 1)
+		os << " bytes=" << hex(last);
+	return os.str();
+}
+
 int oracle_blocks(int, char**) {
 	install();
 	std::string line;
@@ -310,9 +398,9 @@ int oracle_blocks(int, char**) {
 				os << (i ? "," : "") << names[i];
 			r = os.str();
 		}
-		else if (c.op == "blk") {
+		else if (c.op == "blk" || c.op == "reput" || c.op == "resave") {
 			try {
-				r = do_blk(c);
+				r = c.op == "blk" ? do_blk(c) : (c.op == "reput" ? do_reput(c) : do_resave(c));
 			}
 			catch (const std::exception& e) {
 				r = std::string("EXC:") + e.what();
